@@ -111,6 +111,14 @@ def _case(draw):
         case["on_centre"] = draw(st.integers(0, 3)) == 0  # receptor exactly on a cell centre (zero along-wind distance cells)
         if draw(st.integers(0, 2)) == 0:
             case["ext_frac"] = [draw(st.sampled_from([0.3, 0.7, 0.45])), draw(st.sampled_from([0.3, 0.7, 0.45]))]
+        if draw(st.integers(0, 3)) == 0:
+            # a bounding box centred on the receptor in y, in half of these a fraction of a cell higher on BOTH sides: the
+            # domain is symmetric about the wind axis (wd None), the rows - anchored at the top edge - are not
+            case["ext"][3] = case["ext"][2]
+            case["ext_frac"] = None
+            case["ext_sym"] = draw(st.sampled_from([0.0, 0.25, 0.6]))
+            if draw(st.booleans()):
+                case["wd"] = None
         case["shift2"] = [draw(st.integers(-3, 3)), draw(st.integers(-3, 3))]  # second receptor on the same grid
     elif kind == "mass":
         case["xup_factor"] = draw(gen.fl(3.0, 12.0))
@@ -214,6 +222,10 @@ def _check_fp(case):
         dom[1] += case["ext_frac"][0] * res
         dom[2] -= case["ext_frac"][1] * res
         out.label("extent-not-a-multiple-of-res")
+    if case.get("ext_sym"):
+        dom[2] -= case["ext_sym"] * res
+        dom[3] += case["ext_sym"] * res
+        out.label("centred-box-not-a-multiple-of-res")
     if case.get("on_centre"):
         # shift the grid by half a cell: cell centres now fall on the receptor's own coordinates
         dom = [v - 0.5 * res for v in dom]
@@ -262,7 +274,7 @@ def _check_fp(case):
     down = x < -1e-9 * (abs(mx) + abs(my) + res * 20)
     if np.any(ff[down] != 0):
         out.bad("non-zero footprint in downwind cells")
-    if wd is None and e[2] == e[3] and not f32 and not case.get("on_centre") and not case.get("ext_frac"):
+    if wd is None and e[2] == e[3] and not f32 and not case.get("on_centre") and not case.get("ext_frac") and not case.get("ext_sym"):
         if not np.abs(ff - ff[::-1, :]).max() <= 1e-9 * mref:
             out.bad("footprint not mirror-symmetric about the wind axis")
         out.label("symmetry-checked")
